@@ -809,6 +809,10 @@ def builtin_attr(I, obj, name):
         fn = z3.Function('str_lower', z3.StringSort(), z3.StringSort())
         return meth(lambda: SymNameOf(fn(obj.t), obj.src, True))
     if isinstance(obj, SymVal):
+        if obj.k == 'atom' and name in ('lower', 'upper', 'title', 'strip', 'lstrip', 'rstrip', 'casefold', 'capitalize'):
+            # an atom stands for a name; a str -> str method of it is some (other) name: uninterpreted atom -> atom
+            afn = z3.Function('atom_' + name, z3.IntSort(), z3.IntSort())
+            return meth(lambda *a: SymVal(afn(obj.t), 'atom'))
         if obj.k in ('str', 'atom'):
             if name in ('format', 'lower', 'upper', 'title', 'replace', 'strip', 'ljust', 'rjust'):
                 fn = z3.Function('str_' + name, z3.StringSort(), z3.StringSort())
